@@ -247,6 +247,18 @@ def do_op(k, name, a, b, text):
             res(k, "NOERROR")
         except BaseException as e:
             res(k, "EXC", type(e).__name__)
+    elif name == "rec_sum":
+        # one instance for the whole run (instances are never released, see the recorded finding):
+        # members set through the setters, lists longer and shorter than the arrays
+        r = prepared(("rec",), lambda: simlib.Rec())
+        r.count = prepared(("rc0",), lambda: [0, 0, 0])
+        r.w = prepared(("rw0",), lambda: [0.0, 0.0])
+        r.count = prepared(("rc", a), lambda: [1 + i for i in range(a)])
+        r.w = prepared(("rw", a), lambda: [0.5 * (1 + i) for i in range(a)])
+        r.tail = b
+        r.after = 7.0
+        res(k, simlib.recSum(r))
+        del r
     elif name == "pt_sum":
         res(k, simlib.ptSum(prepared(("pt", a), lambda: simlib.Pt(a, a + 0.5))))
     elif name == "pt_tmp":
